@@ -26,7 +26,7 @@ ASSUMPTIONS = [
 ]
 MIN_COUNTERS = {"compared": {"quick": 3000, "thorough": 30000}, "exec_probe_hits": {"quick": 3000, "thorough": 30000},
                 "trace_boundaries_observed": {"quick": 10000, "thorough": 100000}}
-UNIT_TIMEOUT = 1200
+UNIT_TIMEOUT = 150
 FLAGSETS = ["", "", "", "O", "o", "j", "s", "W", "H", "M", "m"]
 
 
@@ -266,11 +266,19 @@ def run_unit(unit):
         check_case(unit["prog"], unit["inputs"], unit["flags"], res)
         return res
     rnd = random.Random(f"C01/{unit['seed']}/{unit['idx']}")
-    for _ in range(unit["n"]):
+    for j in range(unit["n"]):
         prog, inputs, flags = gen_case(rnd)
+        if "only" in unit and unit["only"] != j:
+            continue
         res["counters"]["generated"] = res["counters"].get("generated", 0) + 1
         check_case(prog, inputs, flags, res)
     return res
+
+
+def split_unit(unit):
+    if unit.get("kind") == "random" and "only" not in unit:
+        return [dict(unit, only=j) for j in range(unit["n"])]
+    return None
 
 
 def classify(w):
